@@ -56,6 +56,15 @@ def run_unit(A, unit, rep, tier):
             rv = g.nodes[g.exit]["ret"]
             from_entry = any(x.kind == "cattr" and x.args[1] == "_buffer" for x in rv.walk())
             repoint = [n.id for n in live(g) if n.kind == "data_mut" and n["op"] == "rebind" and recv_like_root(n) and any(x.kind == "cattr" and x.args[1] == "_buffer" for x in n["value"].walk())]
+            # (g) taking the data from the entry by RE-POINTING the root container at a container that another
+            #     object on the same file may have created swaps this object's whole tree: nested handles obtained
+            #     before are detached and writes through them are lost
+            for rid in repoint:
+                n = g.nodes[rid]
+                rep.fail("C06.g", norm_key("C06.g", n.func, n.stmt),
+                         f"{n.func}: `{n.stmt}` replaces this object's root container by the container stored in the shared buffer entry; when another object on the same file created that entry, "
+                         "every nested handle obtained from this object earlier is detached from the tree and writes through it never reach the buffer or the file",
+                         [n.where() + ": " + n.stmt], g.label)
             ok = from_entry or (repoint and g.must_pass(g.entry, [g.exit], repoint) is None)
             if ok:
                 rep.ok("C06.c", f"C06.c {g.label}: every buffered access takes the data from the shared entry")
